@@ -59,3 +59,29 @@ impl_subj!(d16, BUintD16, BIntD16, u16, 16);
 impl_subj!(d32, BUintD32, BIntD32, u32, 32);
 impl_subj!(d64, BUint, BInt, u64, 64);
 
+
+// primitive integers as subjects (sources / targets of casts and conversions)
+macro_rules! prim_subj {
+    ($($t:ty, $u:ty, $bits:expr, $signed:expr, $n:expr, $db:expr);*) => {$(
+        impl crate::Subj for $t {
+            const BITS: u32 = $bits;
+            const SIGNED: bool = $signed;
+            const DIGIT_BITS: u32 = $db;
+            const N: usize = $n;
+            fn type_name() -> String {
+                stringify!($t).to_string()
+            }
+            fn from_le(b: &[u8]) -> Self {
+                let mut a = [0u8; $bits / 8];
+                a.copy_from_slice(b);
+                <$t>::from_le_bytes(a)
+            }
+            fn digit(&self, i: usize) -> u64 {
+                ((*self as $u) >> ((i as u32 * $db) % $bits)) as u64
+            }
+        }
+    )*};
+}
+prim_subj!(u8, u8, 8, false, 1, 8; i8, u8, 8, true, 1, 8; u16, u16, 16, false, 1, 16; i16, u16, 16, true, 1, 16;
+    u32, u32, 32, false, 1, 32; i32, u32, 32, true, 1, 32; u64, u64, 64, false, 1, 64; i64, u64, 64, true, 1, 64;
+    u128, u128, 128, false, 2, 64; i128, u128, 128, true, 2, 64; usize, u64, 64, false, 1, 64; isize, u64, 64, true, 1, 64);
